@@ -83,6 +83,13 @@ alphabet!(Layout {
     Host32First => "[ipv4 other/32, ipv4/24]",
     TwoSubnets => "[ipv4/24, ipv4/24 second subnet]",
 });
+alphabet!(RouteCfg {
+    DefaultForeign => "default route via the on-link gateway",
+    NoRoutes => "no routes",
+    DefaultOwn => "default route via OUR OWN address",
+    SpecificOwn => "prefixes covering the foreign unicast destinations via OUR OWN address",
+    SpecificOwnExpired => "the same prefixes via OUR OWN address, expired",
+});
 alphabet!(Port {
     Match => "matching",
     NoMatch => "not-matching",
@@ -143,6 +150,46 @@ pub fn address_table(ver: Ver, layout: Layout) -> Vec<(Addr, u8)> {
         Layout::V6V4 => vec![(a6.my, 64), (a4.my, 24)],
         Layout::Host32First => vec![(Addr::V4(HOST32_OWN), 32), (a4.my, 24)],
         Layout::TwoSubnets => vec![(a4.my, 24), (Addr::V4(SUBNET2_OWN), 24)],
+    }
+}
+
+/// The routes of a configuration as (prefix, prefix length, gateway, expired). "Specific" routes
+/// cover the foreign unicast destination classes other-onlink and offlink (IFACE_MAX_ROUTE_COUNT
+/// is 2 by default; the look-alike IPv6 classes are only covered by the default route via our
+/// own address).
+pub fn route_table(ver: Ver, cfg: RouteCfg) -> Vec<(Addr, u8, Addr, bool)> {
+    let a = addrs(ver);
+    let zero = match ver {
+        Ver::V4 => Addr::V4([0; 4]),
+        Ver::V6 => Addr::V6([0; 16]),
+    };
+    let specific = |expired: bool| -> Vec<(Addr, u8, Addr, bool)> {
+        match ver {
+            // 10.1.2.0/24 (offlink 10.1.2.3) and 192.168.69.64/26 (other-onlink 192.168.69.77)
+            Ver::V4 => vec![(Addr::V4([10, 1, 2, 0]), 24, a.my.clone(), expired), (Addr::V4([192, 168, 69, 64]), 26, a.my.clone(), expired)],
+            // 2001:db8:ffff::/48 (offlink 2001:db8:ffff::9) and fe80::40/122 (other-onlink fe80::77)
+            Ver::V6 => vec![
+                (Addr::V6([0x20, 0x01, 0x0d, 0xb8, 0xff, 0xff, 0, 0, 0, 0, 0, 0, 0, 0, 0, 0]), 48, a.my.clone(), expired),
+                (Addr::V6([0xfe, 0x80, 0, 0, 0, 0, 0, 0, 0, 0, 0, 0, 0, 0, 0, 0x40]), 122, a.my.clone(), expired),
+            ],
+        }
+    };
+    match cfg {
+        RouteCfg::NoRoutes => vec![],
+        RouteCfg::DefaultForeign => vec![(zero, 0, a.gw.clone(), false)],
+        RouteCfg::DefaultOwn => vec![(zero, 0, a.my.clone(), false)],
+        RouteCfg::SpecificOwn => specific(false),
+        RouteCfg::SpecificOwnExpired => specific(true),
+    }
+}
+
+/// Does the configuration contain a live route covering this foreign unicast destination class
+/// whose gateway is one of our own addresses? (the documented AnyIP acceptance rule)
+pub fn routed_via_own(cfg: RouteCfg, dst: Dst) -> bool {
+    match cfg {
+        RouteCfg::DefaultOwn => true,
+        RouteCfg::SpecificOwn => matches!(dst, Dst::OtherOnLink | Dst::OffLink),
+        _ => false,
     }
 }
 
@@ -258,6 +305,10 @@ pub fn src_addr(ver: Ver, s: Src) -> Option<Addr> {
 }
 
 impl Dst {
+    /// foreign UNICAST destination class
+    pub fn is_foreign_unicast(self) -> bool {
+        matches!(self, Dst::OtherOnLink | Dst::OffLink | Dst::ForeignGlobalLow16 | Dst::ForeignGlobalLow24 | Dst::ForeignLinkLocalLow24)
+    }
     /// broadcast or multicast destination class (by construction of the address, not by asking
     /// the stack)
     pub fn is_bcast_mcast(self) -> bool {
@@ -340,6 +391,8 @@ pub struct Cell {
     pub prefix: Prefix,
     pub auto_first: Option<First>,
     pub layout: Layout,
+    pub routes: RouteCfg,
+    pub any_ip: bool,
 }
 
 fn port_from_json(v: &Value) -> Option<Port> {
@@ -360,7 +413,7 @@ impl Cell {
             "medium": self.med.name(), "ip_version": self.ver.name(), "kind": self.kind.name(),
             "ll_dst": self.ll.name(), "dst": self.dst.name(), "src": self.src.name(),
             "port": self.port.name(), "sockets": self.sock.name(), "group_g_joined": self.joined,
-            "neighbors_primed": self.primed, "prefix": self.prefix.name(), "address_table": self.layout.name(),
+            "neighbors_primed": self.primed, "prefix": self.prefix.name(), "address_table": self.layout.name(), "routes": self.routes.name(), "any_ip": self.any_ip,
             "first_cell": self.auto_first.map(|f| json!({"kind": f.kind.name(), "ll_dst": f.ll.name(), "dst": f.dst.name(), "src": f.src.name(), "port": f.port.name()})),
         })
     }
@@ -384,6 +437,11 @@ impl Cell {
                 Some(n) => Layout::from_name(n)?,
                 None => Layout::Same2,
             },
+            routes: match s("routes") {
+                Some(n) => RouteCfg::from_name(n)?,
+                None => RouteCfg::DefaultForeign,
+            },
+            any_ip: b("any_ip").unwrap_or(false),
             auto_first: match v.get("first_cell") {
                 Some(f) if !f.is_null() => {
                     let fs = |k: &str| f.get(k).and_then(|x| x.as_str());
@@ -405,9 +463,9 @@ impl Cell {
             None => String::new(),
         };
         format!(
-            "{} {} {} ll={} dst={} src={} port={} sockets={} joined={} primed={} addrs={} prefix={}{}",
+            "{} {} {} ll={} dst={} src={} port={} sockets={} joined={} primed={} addrs={} routes=[{}] any_ip={} prefix={}{}",
             self.med.name(), self.ver.name(), self.kind.name(), self.ll.name(), self.dst.name(), self.src.name(),
-            self.port.name(), self.sock.name(), self.joined, self.primed, self.layout.name(), self.prefix.name(), first
+            self.port.name(), self.sock.name(), self.joined, self.primed, self.layout.name(), self.routes.name(), self.any_ip, self.prefix.name(), first
         )
     }
 }
